@@ -33,12 +33,14 @@ type Case struct {
 	DurMs     int     `json:"dur_ms"`
 	Discard   bool    `json:"discard_overflow"`
 	// response-time script
-	ShotMs     int `json:"shot_ms"`  // every shot
-	StallAt    int `json:"stall_at"` // global shot index with a long stall (−1 none)
-	StallMs    int `json:"stall_ms"`
-	PreStartMs int `json:"prestart_ms"` // schedule started this long ago
-	GapMs      int `json:"gap_ms"`      // >0: burst (300 ms) — silence of GapMs — tail: after a stall the next token lies in the future
-	JitterMs   int `json:"jitter_ms"`
+	ShotMs     int  `json:"shot_ms"`  // every shot
+	StallAt    int  `json:"stall_at"` // global shot index with a long stall (−1 none)
+	StallMs    int  `json:"stall_ms"`
+	PreStartMs int  `json:"prestart_ms"`  // schedule started this long ago
+	GapMs      int  `json:"gap_ms"`       // >0: burst (300 ms) — silence of GapMs — tail: after a stall the next token lies in the future
+	UnlimMs    int  `json:"unlimited_ms"` // >0: the paced profile is combined with an unlimited part of this length (before it if UnlimFirst)
+	UnlimFirst bool `json:"unlimited_first,omitempty"`
+	JitterMs   int  `json:"jitter_ms"`
 }
 
 const window = 2 * time.Second
@@ -46,7 +48,15 @@ const window = 2 * time.Second
 func runCase(res *vkit.Result, c Case) {
 	d := time.Duration(c.DurMs) * time.Millisecond
 	var inner core.Schedule
-	if c.GapMs > 0 {
+	if c.UnlimMs > 0 {
+		paced := schedule.NewConst(c.From, d)
+		un := schedule.NewUnlimited(time.Duration(c.UnlimMs) * time.Millisecond)
+		if c.UnlimFirst {
+			inner = schedule.NewComposite(un, paced)
+		} else {
+			inner = schedule.NewComposite(paced, un)
+		}
+	} else if c.GapMs > 0 {
 		inner = schedule.NewComposite(schedule.NewConst(c.From, 300*time.Millisecond),
 			schedule.NewConst(0, time.Duration(c.GapMs)*time.Millisecond), schedule.NewConst(c.From, d))
 	} else if c.Line {
@@ -172,6 +182,10 @@ func runCase(res *vkit.Result, c Case) {
 	mu.Lock()
 	defer mu.Unlock()
 	fired := firedOnTime + firedLate
+	if tokens < 0 {
+		// a profile with an unlimited part has no known length: what was drawn is what there was
+		tokens = rec.OKTokens()
+	}
 	if fired+discarded != tokens {
 		fail("accounting", "%d tokens but %d fired + %d discarded", tokens, fired, discarded)
 	}
@@ -211,6 +225,10 @@ func base() []Case {
 		// the instance comes back: the late ones are discarded, the on-time ones after them must be fired
 		{Name: "stall-then-future", Instances: 1, From: 10, DurMs: 1000, Discard: true, ShotMs: 1, StallAt: 0, StallMs: 2600, GapMs: 2500},
 		{Name: "stall-then-future", Instances: 1, From: 20, DurMs: 800, Discard: true, ShotMs: 0, StallAt: 1, StallMs: 2900, GapMs: 2700},
+		// a paced part next to an unlimited part (the whole profile then has no known length): the paced
+		// tokens must still wait for their time
+		{Name: "paced-plus-unlimited", Instances: 2, From: 20, DurMs: 1000, Discard: true, ShotMs: 1, StallAt: -1, UnlimMs: 150, UnlimFirst: true},
+		{Name: "paced-plus-unlimited", Instances: 1, From: 10, DurMs: 1200, Discard: false, ShotMs: 1, StallAt: -1, UnlimMs: 100},
 		// schedule that started in the past: tokens overdue from the first draw on
 		{Name: "prestarted", Instances: 1, From: 20, DurMs: 3000, Discard: true, ShotMs: 1, StallAt: -1, PreStartMs: 2500},
 		{Name: "prestarted", Instances: 3, From: 30, DurMs: 3000, Discard: false, ShotMs: 1, StallAt: -1, PreStartMs: 2700},
